@@ -402,4 +402,45 @@ def r5(F, R):
     R.floor(2)
 
 
-RULES = [("R1", r1, None), ("R2", r2, None), ("R3", r3, None), ("R4", r4, None), ("R5", r5, None)]
+def r6(F, R):
+    """Brackets are kept per *delivered* feature / rule: the bookkeeping maps are keyed by `Source<_>`, whose equality and hash
+    must be the identity of the shared allocation (two equal-looking features are two brackets).  Decided on the path
+    tables of Source's PartialEq / Hash impls."""
+    bk = F.adts.get(("cucumber", BK))
+    key_tys = " ".join(f.get("ty", "") for v in (bk or {}).get("variants", []) for f in v["fields"])
+    R.check("HashMap<event::Source<gherkin::Feature>" in key_tys and "event::Source<gherkin::Rule>" in key_tys, "bracket-keys-are-sources", None,
+            "bookkeeping maps keyed by Source<Feature> / (Source<Feature>, Source<Rule>)", f"the bracket bookkeeping is not keyed by Source values any more: {key_tys[:200]}")
+    def strip(t):
+        if isinstance(t, tuple) and t:
+            if t[0] in ("ref", "deref", "refto", "conv") and len(t) == 2:
+                return strip(t[1])
+            return tuple(strip(x) for x in t)
+        return t
+    def ptr_of(t, who):
+        t = strip(t)
+        return isinstance(t, tuple) and t and t[0] == "call" and re.search(r"Arc(::<.*>)?::as_ptr$", t[1]) is not None and strip(t[2][0]) == ("field", ("arg", who), 0)
+    eqs = [b for b in F.crate_bodies() if (b.impl or {}).get("self_adt") == "event::Source" and (b.impl or {}).get("trait", "").startswith("std::cmp::PartialEq") and b.name.endswith("::eq")]
+    hs = [b for b in F.crate_bodies() if (b.impl or {}).get("self_adt") == "event::Source" and (b.impl or {}).get("trait") == "std::hash::Hash" and b.name.endswith("::hash")]
+    if len(eqs) != 1 or len(hs) != 1:
+        raise Unverifiable(f"Source: {len(eqs)} PartialEq::eq / {len(hs)} Hash::hash impls")
+    rows = D.Deep(F, eqs[0], max_paths=20).run()
+    ok = len(rows) == 1 and not rows[0].cut
+    if ok:
+        ret = strip(rows[0].ret)
+        by_ptr_eq = ret[0] == "call" and re.search(r"Arc(::<.*>)?::ptr_eq$|ptr::eq$", ret[1]) is not None and \
+            {strip(strip(a)) for a in ret[2]} == {("field", ("arg", 1), 0), ("field", ("arg", 2), 0)}
+        by_as_ptr = ret[0] == "bin" and ret[1] == "Eq" and ((ptr_of(ret[2], 1) and ptr_of(ret[3], 2)) or (ptr_of(ret[2], 2) and ptr_of(ret[3], 1)))
+        by_as_ptr_call = ret[0] == "call" and re.search(r"::eq$", ret[1]) is not None and len(ret[2]) == 2 and ((ptr_of(ret[2][0], 1) and ptr_of(ret[2][1], 2)) or (ptr_of(ret[2][0], 2) and ptr_of(ret[2][1], 1)))
+        ok = by_ptr_eq or by_as_ptr or by_as_ptr_call
+    R.check(ok, "source-eq-is-identity", eqs[0], "Source == Source  <=>  same allocation (Arc::ptr_eq)",
+            "Source's equality is not pointer identity: two structurally equal features / rules share one bracket counter (one Started, early Finished)")
+    rows = D.Deep(F, hs[0], max_paths=20).run()
+    okh = len(rows) == 1 and not rows[0].cut
+    if okh:
+        hashed = [e for e in rows[0].effects if e[0] == "call" and re.search(r"::hash$", e[1])]
+        okh = len(hashed) == 1 and ptr_of(hashed[0][2][0], 1)
+    R.check(okh, "source-hash-is-identity", hs[0], "hash(Source) = hash(Arc::as_ptr)", "Source's hash is not the hash of its allocation's address (inconsistent with identity equality, or by value)")
+    R.floor(3)
+
+
+RULES = [("R1", r1, None), ("R2", r2, None), ("R3", r3, None), ("R4", r4, None), ("R5", r5, None), ("R6", r6, None)]
